@@ -2032,7 +2032,12 @@ impl<'a, const C: usize, const R: usize, T: 'a + Copy + std::fmt::Debug> Layout<
     pub fn trans_resolution_layer_order(&self) -> LayerStack {
         let current_layer = self.current_layer();
         if self.trans_resolution_behavior_v2 {
-            let mut v = self.active_held_layers().collect::<LayerStack>();
+            // heapless `collect` panics when the iterator yields more than the capacity;
+            // with more than MAX_ACTIVE_LAYERS held layers keep the most recently activated ones.
+            let mut v = self
+                .active_held_layers()
+                .take(MAX_ACTIVE_LAYERS)
+                .collect::<LayerStack>();
             let _ = v.push(self.default_layer as u16);
             if self.delegate_to_first_layer && current_layer != 0 && self.default_layer != 0 {
                 let _ = v.push(0);
